@@ -999,3 +999,12 @@ silent('C18', 'machine-counts-processed-right-after-the-put',
        lambda p: {N_MAC: p.modules[N_MAC].src.replace(
            '                    self.stats["num_item_processed"] += 1\n                    y=outedge_to_put.put(put_event, item)',
            '                    y=outedge_to_put.put(put_event, item)\n                    self.stats["num_item_processed"] += 1', 1)})
+
+# ---- C10.R2: cancel loop that edits the list it walks (seed C10-c)
+fire('C10', 'sink-cancel-loop-removes-while-iterating (seed C10-c)', 'C10.R2', 'cancel-loop',
+     lambda p: M.insert_after(p, N_SNK, 'Sink.behaviour', M.stmt_calling('.reserve_get_cancel'), 'self.in_edge_events.remove(event)'))
+silent('C10', 'sink-cancel-loop-over-a-copy-then-clears',
+       lambda p: M.chain(p,
+                         lambda q: M.insert_after(q, N_SNK, 'Sink.behaviour', M.stmt_calling('.reserve_get_cancel'), 'self.in_edge_events.remove(event)'),
+                         lambda q: M.replace_node(q, N_SNK, 'Sink.behaviour', lambda n: isinstance(n, ast.For) and 'reserve_get_cancel' in ast.unparse(n),
+                                                  sub('for event in self.in_edge_events:', 'for event in list(self.in_edge_events):'))))
